@@ -352,19 +352,48 @@ func c11bursts(c *evid.Ctx) {
 			}
 		}
 		msgs, from = nil, nil
+		asked := map[string]int{}
 		for i := nih; i < B; i++ {
 			msgs = append(msgs, announce(hosts[i]))
 			from = append(from, hosts[i].src)
-			if i%5 == 0 {
-				msgs = append(msgs, srv.Query("get_peers", "g", benc.Dict{"id": r.ID(), "info_hash": ihs[r.Intn(nih)], "want": benc.List{"n4", "n6"}}))
-				from = append(from, alloc.V4())
+			if i%3 == 0 {
+				k := r.Intn(nih)
+				src := alloc.V4()
+				asked[src.String()] = k
+				msgs = append(msgs, srv.Query("get_peers", "g", benc.Dict{"id": r.ID(), "info_hash": ihs[k], "want": benc.List{"n4", "n6"}}))
+				from = append(from, src)
 			}
 		}
 		if len(msgs) > 0 {
-			if _, _, err := n.Exchange(nil, msgs, from); err != nil {
+			byB, _, err := n.Exchange(nil, msgs, from)
+			if err != nil {
 				c.Inconclusive(err.Error())
 				n.Close()
 				return
+			}
+			// replies produced in the middle of the burst: whatever they list must belong to the
+			// swarm that was asked for
+			for src, k := range asked {
+				for _, rp := range byB[src] {
+					vals, _ := benc.Lst(rp.R(), "values")
+					for _, v := range vals {
+						sv, ok := v.(string)
+						if !ok || len(sv) < 6 {
+							continue
+						}
+						ep := (&net.UDPAddr{IP: net.IP(sv[:len(sv)-2]), Port: int(sv[len(sv)-2])<<8 | int(sv[len(sv)-1])}).String()
+						okEp := false
+						for _, h := range hosts {
+							if h.ih == k && (&net.UDPAddr{IP: h.src.IP, Port: h.port}).String() == ep {
+								okEp = true
+							}
+						}
+						c.Count("values in replies produced mid-burst checked", 1)
+						if !okEp {
+							c.Violation("returned-endpoint-never-announced:mid-burst", fmt.Sprintf("%d hosts, %d infohashes: a get_peers answered in the middle of the burst lists %s, which never announced for the infohash asked about", B, nih, ep), nil)
+						}
+					}
+				}
 			}
 		}
 		c.Eval(1)
